@@ -245,6 +245,15 @@ fn gen_macro_case(t: &mut Tape) -> MacroCase {
         tail.1 = format!("{}emitq {}\n{}", rules, lit, if twice { format!("emitq {}\n", lit) } else { String::new() });
         expr_arg = true;
     }
+    // v3: inner instructions whose whole encoding is a (possibly negative) typed argument: `dbq {x: i8} => x`
+    if crate::engine::gen_version() >= 3 && tail.0.is_empty() && t.chance(1, 6) {
+        let rules = "#ruledef negq\n{\n    dbq {x: i8} => x\n    dwq {x: s16} => x\n    recq {a}, {b}, {c} => asm\n    {\n        dbq {a}\n        dwq {b}\n        dbq {c}\n    }\n}\n";
+        let vals = ["0x55", "-1", "-3", "0", "127", "-128", "0x7f", "-2"];
+        let (a, b, c) = (*t.pick(&vals), *t.pick(&vals), *t.pick(&vals));
+        tail.0 = format!("{}recq {}, {}, {}\n", rules, a, b, c);
+        tail.1 = format!("{}dbq {}\ndwq {}\ndbq {}\n", rules, a, b, c);
+        expr_arg = true;
+    }
     MacroCase { isa, macros, calls, plain, globals, forward_global: true, local_label_used, expr_arg, tail }
 }
 
